@@ -1,14 +1,14 @@
 SPECIFICATION Spec
 CONSTANTS
   H = 2
-  B = 4
-  InitLen = 4
+  B = 3
+  InitLen = 2
   Fixed = TRUE
   Ids <- IdsAll
   ServeFails = TRUE
   DeferUnreport = TRUE
   LockedAdd = TRUE
-  Counting = TRUE
+  Counting = FALSE
   TrackKey = "pair"
-INVARIANTS ServedShown TrackedWhileServing TrackerEmptied NoPanic OutcomeOK CountersNonNeg CountersBalanced LockNotLeaked NoWedge
+INVARIANTS ServedShown
 CHECK_DEADLOCK FALSE
